@@ -1,5 +1,6 @@
 import FatVerif.Props.C06mount
 import FatVerif.Props.C01sim
+import FatVerif.Proofs.FormatMount3
 /-!
 # C06 — the root directory of the formatted IMAGE (towards `format_root_listing_empty`)
 
@@ -8,9 +9,10 @@ slot of the root directory is the END marker (`DirEntryData::is_end`), so every 
 once; with a label the first slot is the volume-label entry (skipped by listings: `read_dir_entry(skip_volume = true)`)
 and the second slot is the END marker.
 
-NOT proved here (partial): the program-level statement `run (listDir (rootDirStream fs)) d = (.ok [], _)`. It needs
-forward (fault-free) evaluation lemmas for `DirStream`/`DiskSlice` reads through `FsIoAdapter`, `readSlot` and
-`readDirEntryLoop`, which do not exist yet (`Proofs/MountRun1` has them for the raw device only).
+The program-level statement `format_then_list_root_empty` (`run (listDir (rootDirStream fs)) d = (.ok [], _)` after
+format + mount, from `Formattable` alone) is at the end of the file: FAT12/16 on agent-effects' simulation of the fixed
+root (`DirSim.listDir_root_empty`), FAT32 on the cluster-chain simulation (`DirSim.listDir_chain_sim`) with
+FAT[2] = end-of-chain (`C06vol.Fresh.table`) and the layout facts `C06vol.Fresh.geo`.
 -/
 namespace FatVerif.C06root
 open FatVerif FatVerif.Format FatVerif.C06image FatVerif.C06mount
@@ -103,24 +105,17 @@ example : Formattable Ex.o16 Ex.d16 ∧ Ex.o16.label = some [65, 66, 67, 32, 32,
 
 /-! ## the program-level statement (added by agent-effects, using the directory-read simulation of `Props/C01sim`) -/
 
-/-- **`format_then_list_root_empty`** (FAT12/16): format a device, mount it as the next call sees it, list the root
-    directory: the listing is empty, and nothing is written. Kept hypotheses, all about the mounted state `fs` that
-    `format_then_mount` returns (whose conclusion does not expose `first_data_sector`/`root_dir_sectors`): the root slice of
-    `fs` is the region `format_volume` initialised (`hpos`, `hlen`), it consists of `N` whole slots fewer than the scan
-    fuel, and lies inside the device. -/
-theorem format_then_list_root_empty (o : FormatOpts) (d0 d1 : Dev) (hpre : Formattable o d0)
-    (hrun : run (formatVolume o) d0 = (.ok (), d1)) (strict accDate lfnAlloc unicode : Bool) :
-    ∃ boot ft fs d2, formatChecked o (fmtTotal o d0) = .ok (boot, ft) ∧
-      run (mount strict accDate lfnAlloc unicode) (nextOp d1) = (.ok fs, d2) ∧
-      (ft ≠ .fat32 → ∀ N, (rootSliceOf fs).beginOff = rootPos boot.bpb → (rootSliceOf fs).size = rootLen boot.bpb ft →
-        rootLen boot.bpb ft = 32 * N → N < dirFuel fs → rootPos boot.bpb + rootLen boot.bpb ft ≤ d1.img.size →
-        ∃ d3, run (listDir (rootDirStream fs)) d2 = (.ok [], d3) ∧ d3.img = d2.img ∧ d3.log = d2.log) := by
-  obtain ⟨boot, ft, fs, d2, hc, hm, hfs, himg, _, hft, _⟩ := format_then_mount o d0 d1 hpre hrun strict accDate lfnAlloc unicode
-  obtain ⟨boot', ft', hc', h64, hb⟩ := format_root_image o d0 d1 hpre hrun
-  rw [hc] at hc'
-  cases hc'
-  refine ⟨boot, ft, fs, d2, hc, hm, ?_⟩
-  intro h32 N hpos hlen hN hfuel hins
+/-- core of `format_then_list_root_empty` (by agent-effects, on the directory-read simulation of `Props/C01sim`): for
+    an explicit mounted state whose fixed root slice is the region `format_volume` initialised -/
+theorem list_root_empty_core (o : FormatOpts) (d0 d1 : Dev) (hpre : Formattable o d0)
+    {boot : FBoot} {ft : FatType} {fs : FsState} {d2 : Dev} {strict accDate lfnAlloc unicode : Bool}
+    (hm : run (mount strict accDate lfnAlloc unicode) (nextOp d1) = (.ok fs, d2)) (hfs : d2.fs = fs)
+    (himg : d2.img = d1.img) (hft : fs.fatType = ft)
+    (hb : ∀ x, x < rootLen boot.bpb ft → d1.img.getByte (rootPos boot.bpb + x) = rootByte o x)
+    (h32 : ft ≠ .fat32) (N : Nat) (hpos : (rootSliceOf fs).beginOff = rootPos boot.bpb)
+    (hlen : (rootSliceOf fs).size = rootLen boot.bpb ft) (hN : rootLen boot.bpb ft = 32 * N) (hfuel : N < dirFuel fs)
+    (hins : rootPos boot.bpb + rootLen boot.bpb ft ≤ d1.img.size) (h64 : 64 ≤ rootLen boot.bpb ft) :
+    ∃ d3, run (listDir (rootDirStream fs)) d2 = (.ok [], d3) ∧ d3.img = d2.img ∧ d3.log = d2.log := by
   have hfail : d2.failAt = none := ((run_facts _ _ hm).spent rfl).1
   have hR : DirSim.RootReadable d2 N :=
     ⟨hfail, by rw [hfs, hpos, hlen, himg]; exact hins, by rw [hfs, hlen]; exact hN, by rw [hfs]; exact hfuel⟩
@@ -163,5 +158,261 @@ theorem format_then_list_root_empty (o : FormatOpts) (d0 d1 : Dev) (hpre : Forma
   obtain ⟨d3, hr3, hs3⟩ := hempty
   rw [← hstream] at hr3
   exact ⟨d3, hr3, hs3.img, hs3.log⟩
+
+
+theorem bps_mul32 {b : Nat} (hb : b ∈ [512, 1024, 2048, 4096]) : ∃ m, b = 32 * m ∧ 16 ≤ m ∧ m ≤ 128 := by
+  simp only [List.mem_cons, List.mem_nil_iff, or_false] at hb
+  rcases hb with rfl | rfl | rfl | rfl
+  · exact ⟨16, rfl, by omega, by omega⟩
+  · exact ⟨32, rfl, by omega, by omega⟩
+  · exact ⟨64, rfl, by omega, by omega⟩
+  · exact ⟨128, rfl, by omega, by omega⟩
+
+/-- `format_then_list_root_empty`, FAT12/16 part, from `Formattable` alone: format a device, mount it as the next
+    call sees it, list the root directory — the listing is empty (a volume label is skipped by listings), and nothing
+    is written -/
+theorem format_then_list_root_empty_fixed (o : FormatOpts) (d0 d1 : Dev) (hpre : Formattable o d0)
+    (hrun : run (formatVolume o) d0 = (.ok (), d1)) (strict accDate lfnAlloc unicode : Bool) :
+    ∃ boot ft fs d2, formatChecked o (fmtTotal o d0) = .ok (boot, ft) ∧
+      run (mount strict accDate lfnAlloc unicode) (nextOp d1) = (.ok fs, d2) ∧
+      (ft ≠ .fat32 →
+        ∃ d3, run (listDir (rootDirStream fs)) d2 = (.ok [], d3) ∧ d3.img = d2.img ∧ d3.log = d2.log) := by
+  obtain ⟨boot, ft, fs, d2, hc, hm, hfs, himg, _, hft, hbps, hspc, hres, hfats, hspf, hroot, htc, _, _, _, _, _, hx⟩ :=
+    format_then_mount_full o d0 d1 hpre hrun strict accDate lfnAlloc unicode
+  obtain ⟨boot', ft', hc', h64, hb⟩ := format_root_image o d0 d1 hpre hrun
+  rw [hc] at hc'
+  cases hc'
+  refine ⟨boot, ft, fs, d2, hc, hm, fun h32 => ?_⟩
+  have hg := fmtGeom_of_ok hpre.acc hpre.tot hc
+  obtain ⟨m, hm32, hm16, hm128⟩ := bps_mul32 hg.bps_mem
+  have hlenE : rootLen boot.bpb ft = boot.bpb.rootDirSectors * boot.bpb.bps := by
+    unfold rootLen; rw [if_neg h32]
+  have hpos : (rootSliceOf fs).beginOff = rootPos boot.bpb := by
+    show (fs.firstDataSector - fs.rootDirSectors) * fs.bps = _
+    rw [hx.firstDataSector, hx.rootDirSectors, hbps]
+    unfold rootPos
+    rw [Nat.add_sub_cancel]
+  have hlen : (rootSliceOf fs).size = rootLen boot.bpb ft := by
+    show fs.rootDirSectors * fs.bps = _
+    rw [hx.rootDirSectors, hbps, hlenE]
+  have hbo : boot.bpb.bps = o.bps := by
+    obtain ⟨c, _, _, _, _, _, _, _, hboot, _⟩ := formatChecked_ok_layout hpre.acc hpre.tot hc
+    rw [hboot]; rfl
+  have hins : rootPos boot.bpb + rootLen boot.bpb ft ≤ d1.img.size := by
+    rw [hlenE, run_img_size _ _ _ _ hrun]
+    unfold rootPos
+    rw [← Nat.add_mul]
+    have := Nat.mul_le_mul_right boot.bpb.bps (Nat.le_of_lt hg.fit)
+    have := hpre.size
+    rw [hbo] at *; omega
+  -- the number of slots and the scan fuel
+  have hN : rootLen boot.bpb ft = 32 * (boot.bpb.rootDirSectors * m) := by
+    rw [hlenE, hm32, ← Nat.mul_assoc, Nat.mul_comm boot.bpb.rootDirSectors 32, Nat.mul_assoc]
+  have hrdsdef : boot.bpb.rootDirSectors = (boot.bpb.rootEntries * 32 + boot.bpb.bps - 1) / boot.bpb.bps := rfl
+  have hfuel : boot.bpb.rootDirSectors * m < dirFuel fs := by
+    unfold dirFuel FsState.clusterSize
+    rw [hroot, hbps, hspc]
+    -- rds * bps < rootEntries * 32 + bps
+    have h1 : boot.bpb.rootDirSectors * boot.bpb.bps ≤ boot.bpb.rootEntries * 32 + boot.bpb.bps - 1 := by
+      rw [hrdsdef]; exact Nat.div_mul_le_self _ _
+    have hs1 : 1 ≤ boot.bpb.spc := by
+      have := hg.spc_mem; simp only [List.mem_cons, List.mem_nil_iff, or_false] at this; omega
+    have h2 : m ≤ boot.bpb.bps * boot.bpb.spc / 32 := by
+      rw [hm32, Nat.mul_assoc, Nat.mul_div_cancel_left _ (by omega)]
+      exact Nat.le_mul_of_pos_right _ hs1
+    have h3 : 2 * (boot.bpb.bps * boot.bpb.spc / 32) ≤ (fs.totalClusters + 2) * (boot.bpb.bps * boot.bpb.spc / 32) :=
+      Nat.mul_le_mul_right _ (by omega)
+    rw [hm32, ← Nat.mul_assoc, Nat.mul_comm boot.bpb.rootDirSectors 32, Nat.mul_assoc] at h1
+    omega
+  exact list_root_empty_core o d0 d1 hpre hm hfs himg hft hb h32 _ hpos hlen hN hfuel hins h64
+
+/-! ## FAT32: the root directory is the cluster chain of cluster 2 -/
+
+open FatVerif.C06vol FatVerif.FileSim in
+/-- a directory whose first slot is an END marker — or a volume label followed by an END marker — lists as empty -/
+theorem readDirEntries_empty (alloc : Bool) (L : List (List Nat))
+    (h : (1 ≤ L.length ∧ Lfn.isEnd (L.getD 0 []) = true) ∨
+      (2 ≤ L.length ∧ (L.getD 0 []).getD 11 0 = 8 ∧ Lfn.isEnd (L.getD 1 []) = true)) :
+    readDirEntries alloc true L = [] := by
+  match L, h with
+  | [], .inl h => simp at h
+  | [], .inr h => simp at h
+  | s0 :: rest, .inl ⟨_, h0⟩ => exact DirSim.readDirEntries_end_first _ _ _ _ h0
+  | [_], .inr h => simp at h
+  | s0 :: s1 :: rest, .inr ⟨_, h0, h1⟩ => exact DirSim.readDirEntries_label_then_end _ _ _ _ h0 h1
+
+open FatVerif.C06vol FatVerif.FileSim in
+/-- core of the FAT32 case: on the freshly formatted and mounted FAT32 volume the root directory (the chain `[2]`:
+    FAT[2] is end-of-chain, `Fresh.table`) is readable in the sense of `Props/C01sim` -/
+theorem fresh_root_chain {o : FormatOpts} {d0 d1 : Dev} {strict accDate lfnAlloc unicode : Bool}
+    {boot : FBoot} {fs : FsState} {d2 : Dev} (hpre : Formattable o d0)
+    (hrun : run (formatVolume o) d0 = (.ok (), d1))
+    (F : Fresh o d0 d1 strict accDate lfnAlloc unicode boot .fat32 fs d2)
+    (hcap : boot.bpb.sectorsPerFat * boot.bpb.bps * 8 / 32 ≤ 0x0FFFFFF0) :
+    fs.rootCluster = 2 ∧ DirSim.ChainReadable d2 2 none [2] := by
+  have hg := fmtGeom_of_ok hpre.acc hpre.tot F.checked
+  have hgeo : Geo d2.fs d2.img.size := by rw [F.fsEq]; exact F.geo hpre hrun (fun _ => hcap)
+  obtain ⟨_, h2⟩ := F.table hpre hrun (fun _ => hcap)
+  have htc : 65525 ≤ fs.totalClusters := by
+    have := hg.ftc
+    rw [← F.tcEq hpre] at this
+    unfold FatType.fromClusters at this
+    by_cases h1 : fs.totalClusters < 4085
+    · rw [if_pos h1] at this; cases this
+    · rw [if_neg h1] at this
+      by_cases h3 : fs.totalClusters < 65525
+      · rw [if_pos h3] at this; cases this
+      · omega
+  have hbps := hg.bps_mem
+  have hspc := hg.spc_mem
+  simp only [List.mem_cons, List.mem_nil_iff, or_false] at hbps hspc
+  have hcs : d2.fs.clusterSize = boot.bpb.bps * boot.bpb.spc := by
+    rw [F.fsEq]; unfold FsState.clusterSize; rw [F.bps, F.spc]
+  have hcs1 : 512 ≤ boot.bpb.bps * boot.bpb.spc := by
+    have := Nat.mul_le_mul (show 512 ≤ boot.bpb.bps by omega) (show 1 ≤ boot.bpb.spc by omega); omega
+  have hcs2 : boot.bpb.bps * boot.bpb.spc ≤ 4096 * 128 :=
+    Nat.mul_le_mul (by omega) (by omega)
+  have hcs32 : boot.bpb.bps * boot.bpb.spc % 32 = 0 := by
+    obtain ⟨m, hm, _, _⟩ := bps_mul32 hg.bps_mem
+    rw [hm, Nat.mul_assoc]; exact Nat.mul_mod_right _ _
+  refine ⟨by rw [F.rootCluster]; exact (hg.f32 rfl).2.2, ⟨⟨F.extra.failAt, hgeo, rfl, ?_, ?_, rfl, Or.inr rfl, ?_, ?_, ?_⟩, ?_⟩⟩
+  · apply Fat.Chain.last
+    intro n hn
+    rw [tabView_eq_view hgeo d2.img (by rw [F.fsEq]; omega), fatArr_eq_imgFatBytes, F.fsEq] at hn
+    have := h2 rfl
+    unfold C03img.imgTable at this
+    rw [this] at hn
+    cases hn
+  · intro c hc
+    simp only [List.mem_cons, List.mem_nil_iff, or_false] at hc
+    rw [F.fsEq]; omega
+  · intro e he; cases he
+  · rw [hcs]; exact hcs32
+  · rw [hcs]; simp only [List.length_cons, List.length_nil]; omega
+  · unfold dirFuel
+    rw [hcs, F.fsEq]
+    simp only [List.length_cons, List.length_nil]
+    have : 2 * (boot.bpb.bps * boot.bpb.spc / 32) ≤ (fs.totalClusters + 2) * (boot.bpb.bps * boot.bpb.spc / 32) :=
+      Nat.mul_le_mul_right _ (by omega)
+    omega
+
+open FatVerif.C06vol FatVerif.FileSim in
+/-- `format_then_list_root_empty`, FAT32 part (volumes whose FAT has no room for the BAD markers, as in
+    `formatFat_view_fat32`): the listing of the root directory is empty, no byte changes and nothing is written -/
+theorem list_root_empty_fat32 {o : FormatOpts} {d0 d1 : Dev} {strict accDate lfnAlloc unicode : Bool}
+    {boot : FBoot} {fs : FsState} {d2 : Dev} (hpre : Formattable o d0)
+    (hrun : run (formatVolume o) d0 = (.ok (), d1))
+    (F : Fresh o d0 d1 strict accDate lfnAlloc unicode boot .fat32 fs d2)
+    (hcap : boot.bpb.sectorsPerFat * boot.bpb.bps * 8 / 32 ≤ 0x0FFFFFF0) :
+    ∃ d3, run (listDir (rootDirStream fs)) d2 = (.ok [], d3) ∧ d3.img = d2.img ∧ d3.writesOf = d2.writesOf := by
+  obtain ⟨hrc, hR⟩ := fresh_root_chain hpre hrun F hcap
+  have hg := fmtGeom_of_ok hpre.acc hpre.tot F.checked
+  obtain ⟨boot', ft', hc', h64, hb⟩ := format_root_image o d0 d1 hpre hrun
+  rw [F.checked] at hc'
+  cases hc'
+  have hlenE : rootLen boot.bpb .fat32 = boot.bpb.bps * boot.bpb.spc := by
+    unfold rootLen; rw [if_pos rfl, Nat.mul_comm]
+  have hcs : d2.fs.clusterSize = boot.bpb.bps * boot.bpb.spc := by
+    rw [F.fsEq]; unfold FsState.clusterSize; rw [F.bps, F.spc]
+  have hoff : clusterOff d2.fs 2 = rootPos boot.bpb := by
+    unfold clusterOff rootPos
+    rw [F.fsEq, F.extra.firstDataSector, hg.rds32 rfl, F.bps]
+    simp only [Nat.sub_self, Nat.zero_mul, Nat.add_zero]
+  have hsim := DirSim.listDir_chain_sim hR
+  -- the slots of the root cluster
+  generalize hK : boot.bpb.bps * boot.bpb.spc / 32 = K at *
+  have hK2 : 2 ≤ K := by rw [← hK, ← hlenE]; omega
+  have hslots : DirSim.chainSlots d2.fs d2.img [2] =
+      (List.range K).map fun j => d2.img.read (rootPos boot.bpb + 32 * j) 32 := by
+    unfold DirSim.chainSlots
+    simp only [List.flatMap_cons, List.flatMap_nil, List.append_nil]
+    rw [hcs, hK, hoff]
+  have hget : ∀ j, j < K → (DirSim.chainSlots d2.fs d2.img [2]).getD j [] = d2.img.read (rootPos boot.bpb + 32 * j) 32 := by
+    intro j hj
+    rw [hslots, List.getD_eq_getElem?_getD, List.getElem?_map, List.getElem?_range hj]
+    rfl
+  have hKlen : 32 * K ≤ rootLen boot.bpb .fat32 := by
+    rw [hlenE, ← hK]; exact Nat.mul_div_le _ _
+  have hbyte : ∀ x, x < rootLen boot.bpb .fat32 → d2.img.getByte (rootPos boot.bpb + x) = rootByte o x := by
+    intro x hx; rw [F.img]; exact hb x hx
+  have hzero : ∀ (off : Nat), off + 32 ≤ rootLen boot.bpb .fat32 → (∀ k, k < 32 → rootByte o (off + k) = 0) →
+      Lfn.isEnd (d2.img.read (rootPos boot.bpb + off) 32) = true := by
+    intro off hoff hz
+    simp only [Lfn.isEnd, Lfn.byte]
+    rw [Img.read_getD _ _ _ _ (by omega), Nat.add_zero, hbyte off (by omega)]
+    have := hz 0 (by omega); rw [Nat.add_zero] at this; rw [this]; rfl
+  have hempty : readDirEntries d2.fs.lfnAlloc true (DirSim.chainSlots d2.fs d2.img [2]) = [] := by
+    apply readDirEntries_empty
+    have hlen : (DirSim.chainSlots d2.fs d2.img [2]).length = K := by rw [hslots]; simp
+    rw [hlen, hget 0 (by omega), hget 1 (by omega)]
+    cases hl : o.label with
+    | none =>
+      left
+      refine ⟨by omega, ?_⟩
+      exact hzero 0 (by omega) (fun k _ => by unfold rootByte; rw [hl])
+    | some lbl =>
+      right
+      refine ⟨hK2, ?_, hzero 32 (by omega) (fun k hk => ?_)⟩
+      · rw [Img.read_getD _ _ _ _ (by omega), Nat.mul_zero, Nat.add_zero, hbyte 11 (by omega)]
+        unfold rootByte; rw [hl]
+        simp only [show (11 : Nat) < 32 by omega, if_true]
+        have hll := hpre.rng.label lbl hl
+        unfold DirFileEntryData.serialize
+        rw [List.getD_eq_getElem?_getD, List.getElem?_append_right (by simp [DirFileEntryData.new]; omega)]
+        simp [DirFileEntryData.new, DirFileEntryData.serializeTail, hll, ATTR_VOLUME_ID]
+      · unfold rootByte; rw [hl]
+        simp only [show ¬ (32 + k < 32) by omega, if_false]
+  rw [hempty] at hsim
+  obtain ⟨d3, hr3, hs3⟩ := hsim
+  refine ⟨d3, ?_, hs3.img, hs3.writesOf⟩
+  rw [DirSim.rootDirStream_fat32 fs F.fatType, hrc]
+  exact hr3
+
+open FatVerif.C06vol in
+/-- **`format_then_list_root_empty`**, from `Formattable` alone: format a device, mount it as the next call sees it,
+    list the root directory — the listing is empty (a volume label is skipped by listings), the image is unchanged and
+    nothing is written. FAT12/16: the fixed root region; FAT32: the cluster chain of the root cluster (for volumes whose
+    FAT has no room for the BAD markers: `capacity ≤ 0x0FFFFFF0`, the hypothesis of `formatFat_view_fat32`). -/
+theorem format_then_list_root_empty (o : FormatOpts) (d0 d1 : Dev) (hpre : Formattable o d0)
+    (hrun : run (formatVolume o) d0 = (.ok (), d1)) (strict accDate lfnAlloc unicode : Bool) :
+    ∃ boot ft fs d2, formatChecked o (fmtTotal o d0) = .ok (boot, ft) ∧
+      run (mount strict accDate lfnAlloc unicode) (nextOp d1) = (.ok fs, d2) ∧
+      ((ft = .fat32 → boot.bpb.sectorsPerFat * boot.bpb.bps * 8 / 32 ≤ 0x0FFFFFF0) →
+        ∃ d3, run (listDir (rootDirStream fs)) d2 = (.ok [], d3) ∧ d3.img = d2.img ∧ d3.writesOf = d2.writesOf) := by
+  obtain ⟨boot, ft, fs, d2, hc, hm, hfix⟩ :=
+    format_then_list_root_empty_fixed o d0 d1 hpre hrun strict accDate lfnAlloc unicode
+  obtain ⟨boot', ft', fs', d2', F⟩ := fresh_of_format o d0 d1 hpre hrun strict accDate lfnAlloc unicode
+  have e1 := F.checked
+  rw [hc] at e1
+  simp only [Except.ok.injEq, Prod.mk.injEq] at e1
+  obtain ⟨rfl, rfl⟩ := e1
+  have e2 := F.mounted
+  rw [hm] at e2
+  simp only [Prod.mk.injEq, Except.ok.injEq] at e2
+  obtain ⟨rfl, rfl⟩ := e2
+  refine ⟨boot, ft, fs, d2, hc, hm, fun hcap => ?_⟩
+  by_cases h32 : ft = .fat32
+  · subst h32
+    exact list_root_empty_fat32 hpre hrun F (hcap rfl)
+  · obtain ⟨d3, h1, h2, h3⟩ := hfix h32
+    exact ⟨d3, h1, h2, by unfold Dev.writesOf; rw [h3]⟩
+
+/-! ## non-vacuity of `format_then_list_root_empty` -/
+
+set_option maxRecDepth 100000 in
+/-- on the concrete FAT16 device of `C06image.Ex` (label "ABC"; the run succeeds by kernel evaluation) the theorem
+    applies: the root directory of the freshly formatted volume lists as empty although slot 0 holds the label -/
+example : ∃ fs d2 d3, run (mount true false true true) (nextOp (run (formatVolume Ex.o16) Ex.d16).2) = (.ok fs, d2) ∧
+    run (listDir (rootDirStream fs)) d2 = (.ok [], d3) ∧ d3.img = d2.img := by
+  have hrun : run (formatVolume Ex.o16) Ex.d16 = (.ok (), (run (formatVolume Ex.o16) Ex.d16).2) :=
+    Ex.run_of_okUnit (by decide +kernel)
+  obtain ⟨boot, ft, fs, d2, hc, hm, hl⟩ :=
+    format_then_list_root_empty Ex.o16 Ex.d16 _ ex_formattable hrun true false true true
+  have hft : ft = .fat16 := by
+    have hm := (formatChecked_ok_layout ex_formattable.acc ex_formattable.tot hc).choose_spec.2.2.2.1
+    simpa [Ex.o16, allowedTypes] using hm
+  subst hft
+  obtain ⟨d3, h1, h2, _⟩ := hl (fun h => by cases h)
+  exact ⟨fs, d2, d3, hm, h1, h2⟩
 
 end FatVerif.C06root
